@@ -504,7 +504,7 @@ func TestC14(t *testing.T) {
 func init() {
 	Describe("C14",
 		"cases: (op, a, b, n) with op in add/sub/mul/neg/abs/shl/shr/cmp/equal/sign/trunc/text; rapid-generated (boundary-pool and random coefficients to 2^2048 / 10^60, exponents across the int32 range with |exp(a)-exp(b)| bounded) plus two exhaustive grids. Non-trivial: operands have different exponents, or a coefficient >= 2^63, or Truncate actually cuts digits, or String() takes the exponent layout. Distinct by digest(op,a,b,n).",
-		"oracle: exact scaled-integer arithmetic with math/big written in the harness",
+		"oracle: exact scaled-integer arithmetic with math/big written in the harness; every arithmetic result is also read through Sign() and through String() -> ParseDecimal, which must give the coefficient and exponent its CoEx reports",
 		"exponent -2^31 only in the String/Parse sub-check (NewDecimal cannot represent its negated scale)",
 		"documented preconditions respected: result exponents inside int32, Truncate precision >= 1",
 	)
